@@ -39,6 +39,8 @@ void use()
     ft.once([](std::vector<std::string>& x) { x.push_back("a"); });
     (void)ft.steal(ft.b, 0);
     (void)ft.copy_then_move(0);
+    (void)ft.first_unchecked();
+    (void)ft.first_checked();
     bad_cv f;
     f.set();
     f.wait();
